@@ -118,9 +118,9 @@ var plans = map[string]plan{
 		Assumptions: []string{"(a) interleavings of internal goroutines between external steps are the runtime's; (b) the model has Go's channel semantics at synchronisation-operation granularity (differentially tested against real channels in setup) and is faithful only for data-race-free code, which (a) checks dynamically"},
 	},
 	"C20": {
-		Quick:    tierPlan{Shards: 8, Checks: 1, Shrink: "30s", Limit: 30 * time.Minute},
-		Thorough: tierPlan{Shards: 16, Checks: 4, Shrink: "3m", Limit: 4 * time.Hour},
-		Rule: "the unmodified generated deriveDo for 2, 3 and 4 functions, go1.26.8 -race inside testing/synctest bubbles; each case draws the failing subset, a virtual duration per function (which fixes the completion order, ties left to the runtime) and 0-2 rendezvous pairs (f_i sends to f_j and waits for the answer, so sequential execution cannot finish); judged: Do returns only after every function has returned, every value in its position, nil error iff no function failed and otherwise one of the errors actually returned, no deadlock, no goroutine left blocked in the bubble, no race report; non-trivial = a failing function together with a rendezvous pair, or >= 3 functions; distinct by configuration",
-		Assumptions: []string{"completion orders are driven through virtual time; interleavings inside a tie are the runtime's"},
+		Quick:    tierPlan{Shards: 16, Checks: 1, Shrink: "30s", Limit: 30 * time.Minute},
+		Thorough: tierPlan{Shards: 16, Checks: 4, Shrink: "3m", Limit: 5 * time.Hour},
+		Rule: "two engines over the generated deriveDo for 2, 3 and 4 functions. (a) real runtime: unmodified code, go1.26.8 -race, inside testing/synctest bubbles; a case draws the failing subset, a virtual duration per function (fixing the completion order, ties left to the runtime) and 0-2 rendezvous pairs (f_i sends to f_j and waits for the answer, so sequential execution cannot finish). (b) model scheduler: the generated function rewritten onto subjectlib/sched; for n = 2, 3 (thorough: 4) every failing subset x {no rendezvous, every ordered rendezvous pair} is explored depth-first with sleep sets over all interleavings of the functions' completion, the error sends and Do's receives (exhaustive below the bound of 20 000 / 500 000 schedules per configuration). Judged: Do returns only after every function has returned, every value in its position, nil error iff no function failed and otherwise one of the errors actually returned, no deadlock, nothing left blocked afterwards, and in (a) no race report; one evaluation = one executed schedule; non-trivial = a failing function together with a rendezvous pair, or >= 3 functions; distinct by configuration(+schedule)",
+		Assumptions: []string{"(b) models synchronisation only: the unsynchronised result variables of Do are covered by the race detector in (a)"},
 	},
 }
